@@ -1,4 +1,4 @@
-CONSTANTS KeyMode = "concat" MaxAssign = 2 MaxSaves = 1 Pairs = TRUE Wide = FALSE EmitReplay = FALSE
+CONSTANTS KeyMode = "concat" NBooks = 1 PalKind = "full" MaxImport = 0 MaxAssign = 2 MaxSaves = 1 Pairs = TRUE Wide = FALSE EmitReplay = FALSE
 SPECIFICATION MCSpec
 VIEW View
 INVARIANTS NoMerge Faithful
